@@ -18,8 +18,32 @@ Definition zres_accepts {A} (r : res A) : bool := match r with Ok _ => true | Er
 From PV Require Import Model.C02SumParts Proofs.C02TuckerSpProofs.
 Definition zinnerprod_sum_dense := @impl_innerprod_sum_dense Z 0%Z Z.add Z.mul.
 Definition zinnerprod_sum_sp := @impl_innerprod_sum_sp Z 0%Z 1%Z Z.add Z.mul (impl_innerprod_t_sp Z 0%Z Z.add Z.mul).
+Definition zinnerprod_sum_k := @impl_innerprod_sum_k Z 0%Z 1%Z Z.add Z.mul.
+Definition zinnerprod_sum_t := @impl_innerprod_sum_t Z 0%Z 1%Z Z.add Z.mul (impl_innerprod_t_sp Z 0%Z Z.add Z.mul).
 Definition zmttkrp_sum := @impl_mttkrp_sum Z 0%Z 1%Z Z.add Z.mul.
 Definition zttv_sum := @impl_ttv_sum Z 0%Z 1%Z Z.add Z.mul.
 Definition zinnerprod_k_dense_r := @impl_innerprod_k_dense Z 0%Z Z.add Z.mul.
 Definition zinnerprod_k_sp_r := @impl_innerprod_k_sp Z 0%Z 1%Z Z.add Z.mul.
 Definition zinnerprod_k_t_r := @impl_innerprod_k_t Z 0%Z 1%Z Z.add Z.mul.
+
+(* ttensor.reconstruct AS CALLED (row selection in the model); the 50% container switch evaluated on the coordinate-list kernel's own result *)
+From PV Require Import Model.C02Reconstruct Model.C02Switch.
+Definition zimpl_reconstruct := @impl_reconstruct Z 0%Z Z.add Z.mul.
+Definition zdensify := @densify Z zisz.
+
+(* mttkrp AS CALLED, acceptance: the GENERATED get_mttkrp_factors (list length = ndims, 0 <= n < ndims, equal column counts of the non-skipped
+   factors, Kruskal operand redistributed) and then the row-count test every class applies to the non-skipped factors (tensor.mttkrp,
+   sptensor.mttkrp since dc71f18, ktensor.mttkrp, ttensor.mttkrp); order >= 2.  The skipped factor is never looked at. *)
+From PV Require Import Np.NpZ3 Gen.GenUtils3 Model.C02MttkrpGen.
+Definition zmttkrp_accepts (s : shape) (lam : option (list Z)) (Us : list (list (list Z))) (n : Z) : bool :=
+  match get_mttkrp_factors (match lam with Some w => UKt (mkkt w Us) | None => USeq Us end) n (Z.of_nat (length s)) with
+  | Ok fs => (2 <=? length s)%nat &&
+             forallb (fun i => Nat.eqb i (Z.to_nat n) || Nat.eqb (length (nth i fs [])) (nth i s 0%nat)) (seq 0 (length s))
+  | Err => false
+  end.
+
+
+(* tensor.innerprod(tensor) on the operands' RAW data arrays: memory order and buffer observed on the constructed pyttb objects (Model/C02Layout.v) *)
+From PV Require Import Model.C02Layout.
+Definition zinnerprod_l := @impl_innerprod_l Z 0%Z Z.add Z.mul.
+Definition zmkL := @mkL Z.
